@@ -112,14 +112,16 @@ def okSubs (evs : Array Ev) : List Nat :=
   evs.toList.filterMap (fun e => match e with | .sr s "ok" => some s | _ => none)
 
 /-- published messages of successful Publish calls: (u, topic, index of the call, pid, thread) -/
-def okMsgs (evs : Array Ev) : List (Nat × Nat × Nat × Nat × Nat) := Id.run do
+def okMsgsBefore (evs : Array Ev) (bound : Nat) : List (Nat × Nat × Nat × Nat × Nat) := Id.run do
   let mut out := []
   for i in [0:evs.size] do
     if let .pc pid t us th := evs[i]! then
-      if anyEv evs (fun e => match e with | .pr p "ok" => p == pid | _ => false) then
+      if anyBefore evs bound (fun e => match e with | .pr p "ok" => p == pid | _ => false) then
         for u in us do
           out := out ++ [(u, t, i, pid, th)]
   return out
+
+def okMsgs (evs : Array Ev) : List (Nat × Nat × Nat × Nat × Nat) := okMsgsBefore evs evs.size
 
 def ackedMsg (evs : Array Ev) (upto sid u : Nat) : Bool := Id.run do
   for j in [0:min upto evs.size] do
@@ -235,7 +237,7 @@ def c04Obligations (cfg : Cfg) (evs : Array Ev) : String := Id.run do
   match firstIdx evs (fun e => match e with | .goals => true | _ => false) with
   | none => return "ok"
   | some g =>
-    for (u, t, pcIdx, _, _) in okMsgs evs do
+    for (u, t, pcIdx, _, _) in okMsgsBefore evs g do   -- Publish calls that had returned when the harness saw its goals reached
       for s in okSubs evs do
         if owed cfg evs s u t pcIdx then
           if !ackedMsg evs g s u then return "violated:published_message_not_delivered_to_subscriber"
@@ -256,7 +258,7 @@ def monC11 (cfg : Cfg) (evs : Array Ev) : String := Id.run do
   match firstIdx evs (fun e => match e with | .goals => true | _ => false) with
   | none => return noStuck evs
   | some g =>
-    for (u, t, _, _, _) in okMsgs evs do
+    for (u, t, _, _, _) in okMsgsBefore evs g do
       for s in okSubs evs do
         if subTopic evs s == some t && !anyEv evs (isCx s) then
           let rvs := countEv evs (fun e => match e with | .rv s' _ u' _ _ _ _ _ => s' == s && u' == u | _ => false)
